@@ -66,9 +66,9 @@ pub struct FakeJunos {
     /// render the running configuration with the raw renderer (attribute order under control)
     pub running_raw: bool,
     /// when set, served verbatim as the reply to the running get-config (message-id patched in)
-    pub running_override: Option<String>,
+    pub running_override: Option<Vec<u8>>,
     /// when set, served verbatim as the reply to the ephemeral get-config
-    pub ephemeral_override: Option<String>,
+    pub ephemeral_override: Option<Vec<u8>>,
     pub style: Option<Style>,
     pub ephemeral: Config,
     pub pending: Option<Config>,
@@ -264,7 +264,7 @@ impl FakeJunos {
                 match source.as_str() {
                     "running" => {
                         if let Some(o) = &self.running_override {
-                            return (o.replace("{MSGID}", id).into_bytes(), true);
+                            return (o.clone(), true);
                         }
                         if self.running_raw {
                             (running_reply_raw(id, &self.running).into_bytes(), true)
@@ -274,7 +274,7 @@ impl FakeJunos {
                     }
                     "candidate" => {
                         if let Some(o) = &self.ephemeral_override {
-                            return (o.replace("{MSGID}", id).into_bytes(), true);
+                            return (o.clone(), true);
                         }
                         match &self.pending {
                             Some(db) => (self.data_reply(id, db.render()), true),
